@@ -108,7 +108,7 @@ theorem mk_error_kind (d : Data) (e : Wire.Err) (h : mk d = some (.error e)) : e
     cases d with
     | arr a => cases he
     | str s =>
-      simp only [toArrCtor] at he
+      simp only [toArr] at he
       split at he
       · cases he
       · next e0 hs =>
@@ -121,10 +121,10 @@ theorem mk_error_kind (d : Data) (e : Wire.Err) (h : mk d = some (.error e)) : e
     rw [Option.some_inj] at h
     exact harr a h
 
-/-- `+` and reflected `+` call `str2array` without that conversion: the same literal as an operand still ends in the
-    OverflowError stand-in (what the code does now; the statement fixes the error kind only for construction) -/
-theorem add_overflow_escapes :
-    add [0, 1] (.data (.str [57,57,57,57,57,57,57,57,57,57,57,57,57,57,57,57,57,57,57,57])) = some (.error .Other) ∧
+/-- the same literal as an operand of `+` / reflected `+` is a ValueError too (the operators wrap `str2array` the same way) -/
+theorem add_overflow_is_ValueError :
+    add [0, 1] (.data (.str [57,57,57,57,57,57,57,57,57,57,57,57,57,57,57,57,57,57,57,57])) = some (.error .ValueError) ∧
+    radd [0, 1] (.data (.str [45,57,50,50,51,51,55,50,48,51,54,56,53,52,55,55,53,56,48,57])) = some (.error .ValueError) ∧
     mk (.str [57,57,57,57,57,57,57,57,57,57,57,57,57,57,57,57,57,57,57,57]) = some (.error .ValueError) := by
   decide
 
@@ -141,7 +141,7 @@ theorem mk_str_bits (s : List Nat) (h : Plain s) :
     · exact absurd hk (by decide)
     · exact absurd hk (by decide)
   refine ⟨?_, hdig⟩
-  simp only [mk, toArrCtor, str2array_plain s h, parsedToArr, Option.map_some]
+  simp only [mk, toArr, str2array_plain s h, parsedToArr, Option.map_some]
   show some (mkArr (.vec ((s.filter keep).map cellOf))) = _
   have hok : cellsOK ((s.filter keep).map cellOf) = true := by
     rw [cellsOK, List.all_eq_true]
@@ -430,26 +430,75 @@ theorem getitem_newaxis (a : List Nat) : getitem a .newaxis = .error .ValueError
 
 /-! ### operands that are refused -/
 
-/-- a non-container, non-string operand is a TypeError; list / tuple / ndarray operands that are not 1-D 0/1 data are a
-    ValueError; nothing else can come out for such operands -/
+/-- conversion errors of a data operand (string or array) are ValueError only -/
+theorem toArr_error_kind (d : Data) (e : Wire.Err) (h : toArr d = some (.error e)) : e = .ValueError := by
+  cases d with
+  | arr a => cases h
+  | str s =>
+    simp only [toArr] at h
+    split at h
+    · cases h
+    · next e0 hs =>
+      have hk := str2array_err s e0 hs
+      injection h with h
+      injection h with h
+      rcases hk with rfl | rfl <;> simp at h <;> exact h.symm
+    · cases h
+
+/-- **refused operands**: a non-container, non-string operand is a TypeError; every other refusal of `+` / reflected `+`
+    (strings included, out-of-range integer literals included) is a ValueError -/
 theorem add_error_kinds (a : List Nat) :
     add a .other = some (.error .TypeError) ∧ radd a .other = some (.error .TypeError) ∧
-    ∀ (arr : Arr) (e : Wire.Err), (add a (.data (.arr arr)) = some (.error e) ∨ radd a (.data (.arr arr)) = some (.error e)) →
+    ∀ (o : Operand) (e : Wire.Err), o ≠ .other → (add a o = some (.error e) ∨ radd a o = some (.error e)) →
       e = .ValueError := by
   refine ⟨rfl, rfl, ?_⟩
-  intro arr e h
-  rw [add_eq, radd_eq, operandBits_arr] at h
-  cases arr with
-  | vec cs =>
-    simp only at h
-    by_cases hc : ∀ c ∈ cs, c.bit.isSome = true
-    · simp only [if_pos hc, Option.some.injEq] at h
-      rcases h with h | h <;> exact revalidate_err _ _ h
-    · simp only [if_neg hc, Option.some.injEq, Except.error.injEq] at h
-      rcases h with h | h <;> exact h.symm
-  | ragged => simp only [Option.some.injEq, Except.error.injEq] at h; rcases h with h | h <;> exact h.symm
-  | scalar c => simp only [Option.some.injEq, Except.error.injEq] at h; rcases h with h | h <;> exact h.symm
-  | nd d cs => simp only [Option.some.injEq, Except.error.injEq] at h; rcases h with h | h <;> exact h.symm
+  intro o e ho h
+  have hop : ∀ e', operandBits o = some (.error e') → e' = .ValueError := by
+    intro e' he'
+    cases o with
+    | other => exact absurd rfl ho
+    | bs b => cases he'
+    | data d =>
+      simp only [operandBits] at he'
+      cases hd : toArr d with
+      | none => rw [hd] at he'; cases he'
+      | some r =>
+        rw [hd] at he'
+        cases r with
+        | error e0 =>
+          have : e0 = e' := by
+            simp only [Option.map_some, Except.bind] at he'
+            injection he' with he'; injection he'
+          exact this ▸ toArr_error_kind d e0 hd
+        | ok arr =>
+          simp only [Option.map_some, Except.bind, Option.some.injEq] at he'
+          cases arr with
+          | ragged => injection he' with he'; exact he'.symm
+          | scalar c =>
+            dsimp only at he'
+            by_cases hc : (!cellsOK [c]) = true
+            · rw [if_pos hc] at he'; injection he' with he'; exact he'.symm
+            · rw [if_neg hc] at he'; injection he' with he'; exact he'.symm
+          | nd k cs =>
+            dsimp only at he'
+            by_cases hc : (!cellsOK cs) = true
+            · rw [if_pos hc] at he'; injection he' with he'; exact he'.symm
+            · rw [if_neg hc] at he'; injection he' with he'; exact he'.symm
+          | vec cs =>
+            dsimp only at he'
+            by_cases hc : (!cellsOK cs) = true
+            · rw [if_pos hc] at he'; injection he' with he'; exact he'.symm
+            · rw [if_neg hc] at he'; cases he'
+  rw [add_eq, radd_eq] at h
+  rcases h with h | h
+  · split at h
+    · cases h
+    · next e' he' => injection h with h; injection h with h; exact h ▸ hop e' he'
+    · rw [Option.some_inj] at h; exact revalidate_err _ _ h
+  · split at h
+    · cases h
+    · next e' he' => injection h with h; injection h with h; exact h ▸ hop e' he'
+    · rw [Option.some_inj] at h; exact revalidate_err _ _ h
 
 /-! ### `electrical_signal > threshold`, `< threshold` -/
 
